@@ -4,18 +4,20 @@ from harness import gen_build as G
 from harness import gen_models as M
 
 
-def clash_case(rng):
+def clash_case(rng, want_mc=None):
     """a buildable case whose names collide across sibling / nested / global namespaces and whose
     references are then re-spelled at random (simple, partially or fully qualified) — some spellings
     resolve uniquely, others are ambiguous, missing or of the wrong kind"""
     saved = (G.ITF_NAMES, G.EXT_NAMES, G.ENUM_NAMES, G.NS_POOL)
     G.ITF_NAMES, G.EXT_NAMES, G.ENUM_NAMES = ['I', 'T'], ['T', 'I', 'X'], ['E', 'T']
+    if want_mc:
+        G.ENUM_NAMES = ['T', 'X', 'E']      # the claim's reply enum shares its simple name with externs
     G.NS_POOL = rng.choice([[[], ['A'], ['A', 'B'], ['B'], ['A', 'B', 'A']],
                             [[], ['A'], ['AB'], ['A', 'B'], ['A', 'BA'], ['A_', 'B']]])
     if rng.random() < 0.5:
         G.ITF_NAMES, G.EXT_NAMES = ['I', 'IH', 'T'], ['T', 'TT', 'I']
     try:
-        c = G.gen_case(rng, want_mc=rng.random() < 0.2)
+        c = G.gen_case(rng, want_mc=(rng.random() < 0.2) if want_mc is None else want_mc)
     finally:
         G.ITF_NAMES, G.EXT_NAMES, G.ENUM_NAMES, G.NS_POOL = saved
     src = c['src']
@@ -97,6 +99,56 @@ def same_spelling_case(rng):
     return {'op': 'build.c07', 'src': src, 'ast': M.enc_root(src), 'cfg': cfg, 'expect': 'any'}
 
 
+def walk_interfaces(elems, ns=()):
+    for e in elems:
+        if e['k'] == 'namespace':
+            yield from walk_interfaces(e['elems'], ns + tuple(e['name']))
+        elif e['k'] == 'interface':
+            yield list(ns) + list(e['name']), e, elems
+
+
+def mc_then_plain(rng):
+    """a valid multi-client case in which only the provides ports are rerouted, then the same parsed model
+    with every port rerouted; a formal of a requires port's interface is spelled by the simple name of the claim's
+    reply enum, and a global extern of that name exists too: from that interface's scope the spelling denotes
+    the extern alone, or (enum on the scope chain as well) no unique declaration"""
+    saved = (G.ITF_NAMES, G.EXT_NAMES, G.ENUM_NAMES, G.NS_POOL)
+    G.NS_POOL = [[], ['A'], ['A', 'B'], ['B'], ['A', 'B', 'A']]
+    try:
+        c = G.gen_case(rng, want_mc=True)
+    finally:
+        G.ITF_NAMES, G.EXT_NAMES, G.ENUM_NAMES, G.NS_POOL = saved
+    m = c['cfg'].get('multiclient')
+    info = c['_info']
+    if not m:
+        return None
+    p0 = next(p for p in info['ports'] if p['name'] == m['port'])
+    itf0 = next(i for i in info['interfaces'] if i['fq'] == p0['_itf'])
+    claim = next(e for e in itf0['events'] if e['name'] == m['claim'])
+    name = claim['_reply']['fqn'][-1]
+    src = c['src']
+    others = [(fq, node, cont) for fq, node, cont in walk_interfaces(src) if fq != p0['_itf']
+              and any(p['_itf'] == fq and not p['injected'] and p['dir'] == 'requires' for p in info['ports'])
+              and not any(p['_itf'] == fq and p['dir'] == 'provides' for p in info['ports'])]
+    cands = [(fq, ev, f, cont) for fq, node, cont in others for ev in node['events'] for f in ev['formals']]
+    if not cands:
+        return None
+    for fq, ev, f, cont in rng.sample(cands, min(len(cands), rng.randint(1, 2))):
+        f['type'] = [name]
+        # an extern of that name next to the interface (or at global scope)
+        where = cont if rng.random() < 0.7 else src
+        if not any(e['k'] != 'namespace' and e['name'] == [name] for e in where):
+            where.insert(rng.randint(0, len(where)), {'k': 'extern', 'name': [name], 'value': 'int'})
+    a = {k: v for k, v in c.items() if k != '_info'}
+    a.update(op='build.c07', ast=M.enc_root(src), expect='any', force_session=True)
+    # the provides side cannot be mixed: all provides ports rerouted, no requires port rerouted
+    a['cfg']['ports'] = {'psts': {'w': 'none'}, 'pmts': {'w': 'all'}, 'rsts': {'w': 'all'}, 'rmts': {'w': 'none'}}
+    b = copy.deepcopy(a)
+    b['cfg']['multiclient'] = None
+    b['cfg']['ports'] = {'psts': {'w': 'none'}, 'pmts': {'w': 'all'}, 'rsts': {'w': 'none'}, 'rmts': {'w': 'all'}}
+    return [a, b]
+
+
 class C07(Prop):
     id = 'C07'
     theorems = ['C07.port_type_is_the_denoted_interface', 'C07.port_lookup_error', 'C07.formal_type_is_the_denoted_extern', 'C07.formal_lookup_error', 'C07.lambda_params_typed', 'C07.elements_denote', 'C07.lookup_errors', 'C07.unrelated_declarations_irrelevant', 'C07.second_candidate_is_an_error', 'C14.find_fqn_spec', 'C14.order']
@@ -115,6 +167,17 @@ class C07(Prop):
         n = 400 if tier == 'quick' else scale(20000)
         yield 'name-clash', [clash_case(rng) for _ in range(n)]
         yield 'same-spelling', [same_spelling_case(rng) for _ in range(n // 2)]
+        # a multi-client shell first, then the same parsed model (and the same Builder) used for a shell in which
+        # every port is rerouted, so that every formal's type is looked up: the lookups of the second build see
+        # the declarations as written, whatever the first build did with them
+        pairs = []
+        for _ in range(n * 4):
+            pr = mc_then_plain(rng)
+            if pr:
+                pairs += pr
+            if len(pairs) >= n // 4:
+                break
+        yield 'mc-then-plain', pairs
         plain = []
         for _ in range(n // 4):
             c = G.gen_case(rng)
@@ -124,7 +187,7 @@ class C07(Prop):
         yield 'plain', plain
 
     def impl(self, case):
-        r = G.build_impl(case)
+        r = G.build_impl(case, fresh=False) if case.get('force_session') else G.build_impl(case)
         if 'ok' in r:
             r = {'ok': {'files': r['ok']['files'][:2]}}
         return r
